@@ -16,6 +16,7 @@ def run(ck, build):
     ck.rule("R-C15-DEP", "the value hashed as V is, byte for byte, the value V holds at that point (old V for reseed/feed, the entropy for instantiate, the previous digest for C); the additional input is "
             "the entropy just delivered (reseed) or the caller's buffer (feed); in generate the new V is V + Hash(3|V) + C + counter as a 256-bit big-endian sum: per-byte support sets are exactly "
             "{V,H,C bytes i..31, counter} and the bit-level terms evaluate to the integer sum on carry-chain corner cases and pseudo-random assignments (counter < 2^31); C is untouched by generate")
+    ck.rule("R-C15-HASH", "premise: the hash underneath is the documented TinyJAMBU-Hash and streams (all rules of C10/C11 re-run on the same IR)")
     ck.not_decided += ["output values (the hash is C10/C11); where automatic reseeds fall in a history is C16; short entropy deliveries only change the bytes called ENTROPY here "
                        "(the zero-fill before the request is not checked)", "counter values >= 2^32 - 765, where the implementation's 32-bit carry would wrap (unreachable: C16 bounds the counter)"]
     mod = Module(build.facts("H", "N0"))
@@ -24,6 +25,8 @@ def run(ck, build):
     def ob(cond, rule, fn, cons, ok, bad, where=None):
         return ck.ob(cond, MAP[rule], fn, cons, ok, bad, where=where)
     kdflib.check_prng(ob, mod, "H/N0")
+    from . import hashlib
+    hashlib.premises(ck, mod, "R-C15-HASH")
     ck.floor("R-C15", "obligations over entry points / block-length classes", len(ck.obligations), 400)
     fx = Module(build.fixture_facts(os.path.join(os.path.dirname(os.path.dirname(os.path.dirname(__file__))), "fixtures", "c15_bad.c")))
     sub = type(ck)("C15-fixture")
